@@ -456,7 +456,7 @@ void c17_close (void) {
 static void json_str (char *dst, size_t n, const char *s) {
   size_t j = 0;
   for (; *s && j + 2 < n; s++)
-    if (*s != '"' && *s != '\\' && (unsigned char) *s >= 32) dst[j++] = *s;
+    if (*s != '"' && *s != '\\' && (unsigned char) *s >= 32 && (unsigned char) *s < 127) dst[j++] = *s; /* ASCII only */
   dst[j] = 0;
 }
 
